@@ -1028,8 +1028,9 @@ impl<R: std::io::Read + std::io::Seek> FlacChannelReader<R> {
             sample,
         )?;
 
-        // seeking invalidates the current samples consumed
-        self.consumed = 0;
+        // seeking invalidates the previously decoded frame,
+        // so mark all of it as consumed
+        self.consumed = self.decoder.buf.pcm_frames();
 
         // needed channel-independent samples
         while sample > pos {
